@@ -195,7 +195,7 @@ theorem pump_good (fuel : Nat) (s : St) (f : Nat) (hb : Base s f) (hc : Cov s f)
               · rw [hheld] at hit; cases hit; simp only at hlt; omega
             · exact Or.inr (Or.inr h)
         · rw [if_neg hk]
-          by_cases hu : k ∈ s.undecodable
+          by_cases hu : s.decodable b = false
           · -- the stored bytes do not decompress: dropped
             rw [if_pos hu]
             have hH : ∀ it, (none : Option (Nat × Batch)) = some it →
